@@ -41,7 +41,7 @@ class Evidence:
             h = hashlib.blake2b(json.dumps(obj, sort_keys=True, default=str)
                                 .encode(), digest_size=10).digest()
             self._distinct.add(h)
-        if len(self.samples) < 5:
+        if len(self.samples) < 5 and (nontrivial or self.evaluations > 50):
             self.samples.append(obj)
 
     def write(self):
@@ -51,7 +51,7 @@ class Evidence:
                "evaluations": self.evaluations,
                "distinct_nontrivial": len(self._distinct),
                "rule": self.rule,
-               "samples": self.samples[:5] or ["<none>"],
+               "samples": self.samples[:5] or ["<no case evaluated>"],
                "tlc_runs": self.tlc_runs}
         if self.exhaustive is not None:
             cov["exhaustive"] = bool(self.exhaustive)
